@@ -124,3 +124,8 @@ CHECKS["C19"] = {"pkg": "wallet", "shards": 12,
     "technique": "model-based stateful property testing (rapid state machine) of wallet.Service with memory / file / fresh-service comparison after every step and an unchanged-on-failure oracle",
     "text": "Generated sequences of create (4 wallet types, temporary, encrypted, duplicate seeds, bad parameters), new addresses, scan, label, encrypt, decrypt, recover, unload and secret updates with right, wrong and missing passwords and unknown ids; after every step each loaded non-temporary wallet must serialise identically in memory, in its file and in a freshly started service, temporary wallets must have no file, no two loaded wallets may share a fingerprint, and a failed operation must leave directory and memory byte-identical.",
     "note": "file-system faults are the subject of C20, not injected here; unloaded wallets keep their file by design and are tracked by the model"}
+
+CHECKS["C20"] = {"pkg": "wallet", "shards": 12, "helpers": ["cmd/savehelper"], "level": "fault_enumeration", "timeout_quick": 900, "timeout_thorough": 3000,
+    "technique": "fault injection over generated save scenarios: every file-system syscall of the save is enumerated with strace and the process is killed immediately before it (plus torn-write variants); restart oracle old-or-new",
+    "text": "For generated wallet / key-value save scenarios the helper process performing the save is killed (SIGKILL injected by strace) before each of its file-system syscalls in turn, so every prefix of the save's file operations is materialised on a real directory; torn variants truncate the last written file. A fresh wallet service / storage manager must start on every crash state and hold the old or the new content. The crash points are those of the real implementation, whatever it is changed to; scenarios are sampled.",
+    "note": "ordered-write crash model (no reordering below the syscall level); needs a working ptrace (strace); scenario content is sampled, crash points per scenario are enumerated exhaustively"}
